@@ -7,5 +7,5 @@ CONSTANTS
   Queries = {"all", "g1"}
   MaxDocs = 4
   MaxParts = 4
-INVARIANTS AlgebraSound Disjoint
+INVARIANTS AlgebraSound Disjoint EmptyNeutral
 CHECK_DEADLOCK FALSE
